@@ -509,6 +509,8 @@ func (in *Interp) runPath(fn *ssa.Function, prefix []int) (kind, msg string, vio
 	in.speculating = false
 	in.pathViol = nil
 	in.divN = 0
+	in.decided = map[*T]bool{}
+	in.curModel, in.pendingModel, in.pendingFor = nil, nil, nil
 	in.tb.vars = map[string]*T{}
 	in.sol.BeginPath()
 	in.sol.Push()
